@@ -12,6 +12,8 @@ theorem enqueue_queue (cfg : Config) (s : Sess) (q : Pkt) :
 
 @[simp] theorem enqueue_pc (cfg : Config) (s : Sess) (q : Pkt) : (enqueue cfg s q).pc = s.pc := by
   unfold enqueue; split <;> rfl
+@[simp] theorem enqueue_started (cfg : Config) (s : Sess) (q : Pkt) : (enqueue cfg s q).started = s.started := by
+  unfold enqueue; split <;> rfl
 @[simp] theorem enqueue_key (cfg : Config) (s : Sess) (q : Pkt) : (enqueue cfg s q).key = s.key := by
   unfold enqueue; split <;> rfl
 @[simp] theorem enqueue_clientAddr (cfg : Config) (s : Sess) (q : Pkt) : (enqueue cfg s q).clientAddr = s.clientAddr := by
